@@ -640,7 +640,8 @@ def r3(ctx, chk):
     iv = ix.func("dateparser.date:_DateLocaleParser._is_valid_date_data")
     allowed = None
     for n in iter_own_nodes(iv.node):
-        if isinstance(n, ast.Compare) and isinstance(n.ops[0], ast.NotIn) and isinstance(n.comparators[0], (ast.Tuple, ast.List)):
+        if isinstance(n, ast.Compare) and isinstance(n.ops[0], (ast.NotIn, ast.In)) and isinstance(n.comparators[0], (ast.Tuple, ast.List, ast.Set)) \
+                and all(isinstance(e_, ast.Constant) and isinstance(e_.value, str) for e_ in n.comparators[0].elts):
             try:
                 allowed = set(ast.literal_eval(n.comparators[0]))
             except Exception:
